@@ -258,6 +258,68 @@ def _pair_sites(funcs) -> list[tuple[str, str, str, str]]:
     return out
 
 
+# ------------------------------------------------------------------------------------------------ frame table keys
+def _krole(node: ast.expr, fn: ast.FunctionDef, pos: int, depth: int = 0) -> str:
+    """role of one element of a key of `_frames`: KFrame / KSide / KMip / KOther.  A literal is neutral (level 0, side 0): it
+    gets the role of its position.  A name gets the role of the loop that binds it (by what the loop iterates over), of the
+    parameter it is (frame / side, depth / mipmap: the keyword API of VTF.get), of the position it is unpacked from when it
+    comes from `_frames.items()`, or of the expressions assigned to it (all must agree)."""
+    want = ('KFrame', 'KSide', 'KMip')[pos]
+    if depth > 5:
+        return 'KOther'
+    if isinstance(node, ast.Constant) and type(node.value) is int:
+        return want
+    if isinstance(node, ast.BinOp) and isinstance(node.op, (ast.Add, ast.Sub)):
+        sides = [x for x in (node.left, node.right) if not isinstance(x, ast.Constant)]
+        return _krole(sides[0], fn, pos, depth + 1) if len(sides) == 1 else 'KOther'
+    if not isinstance(node, ast.Name):
+        return 'KOther'
+    name = node.id
+
+    def by_text(t: str) -> str | None:
+        t = t.lower()
+        if 'depth_seq' in t or '_depth_range' in t or 'cubeside' in t or 'side' in t or 'depth' in t or 'cube' in t:
+            return 'KSide'
+        if 'mip' in t or 'itertools.count' in t:
+            return 'KMip'
+        if 'frame' in t:
+            return 'KFrame'
+        return None
+    for st in ast.walk(fn):
+        if isinstance(st, ast.For):
+            if isinstance(st.target, ast.Name) and st.target.id == name:
+                return by_text(ast.unparse(st.iter)) or 'KOther'
+            # for (a, b, c), frame in X._frames.items()
+            if isinstance(st.target, ast.Tuple) and st.target.elts and isinstance(st.target.elts[0], ast.Tuple) \
+                    and ast.unparse(st.iter).endswith('._frames.items()'):
+                for i, e in enumerate(st.target.elts[0].elts):
+                    if isinstance(e, ast.Name) and e.id == name and i < 3:
+                        return ('KFrame', 'KSide', 'KMip')[i]
+    params = [a.arg for a in fn.args.args + fn.args.kwonlyargs]
+    if name in params:
+        return {'frame': 'KFrame', 'mipmap': 'KMip', 'side': 'KSide', 'depth': 'KSide'}.get(name, by_text(name) or 'KOther')
+    vals = [st.value for st in ast.walk(fn) if isinstance(st, ast.Assign) and any(isinstance(t, ast.Name) and t.id == name for t in st.targets)]
+    if vals:
+        roles = {_krole(v, fn, pos, depth + 1) for v in vals}
+        return roles.pop() if len(roles) == 1 else 'KOther'
+    return by_text(name) or 'KOther'
+
+
+def _key_sites(funcs) -> list[tuple[str, list[str]]]:
+    out: list[tuple[str, list[str]]] = []
+    for qual, fn in funcs:
+        k = 0
+        for n in ast.walk(fn):
+            if isinstance(n, ast.Subscript) and isinstance(n.value, ast.Attribute) and n.value.attr == '_frames':
+                elts = _flat_tuple(n.slice)
+                if elts is None or len(elts) != 3:
+                    _err(n, f'{qual}: the frame table is addressed with something that is not a (frame, side, mipmap) triple: {ast.unparse(n.slice)[:50]}')
+                k += 1
+                out.append((f'{qual}: _frames[{", ".join(ast.unparse(e) for e in elts)}]' + (f' #{k}' if k > 1 else ''),
+                            [_krole(e, fn, i) for i, e in enumerate(elts)]))
+    return out
+
+
 def access_info() -> dict:
     tree = c15_norm.normalised_tree(src_text('vtf.py'))
     sigs, ppm_header = _rw_signatures()
@@ -469,7 +531,7 @@ def access_info() -> dict:
             guards.append((f'{qual}: copy from {q}', atoms))
 
     paths += _pair_sites(funcs)
-    return {'paths': paths, 'allocs': allocs, 'guards': guards, 'census': sorted(set(census)), 'ppm_header': list(ppm_header)}
+    return {'keys': _key_sites(funcs), 'paths': paths, 'allocs': allocs, 'guards': guards, 'census': sorted(set(census)), 'ppm_header': list(ppm_header)}
 
 
 def _cs(s: str) -> str:
@@ -492,6 +554,10 @@ def translate_access() -> tuple[str, dict]:
     L.append('(* the size test in front of every frame-to-frame copy of a whole pixel array *)')
     L.append('Definition gen_copy_guards : list (string * list gatom) := [')
     L.append(';\n'.join(f'  ({_cs(n)}, [{"; ".join(f"({a}, {b})" for a, b in atoms)}])' for n, atoms in info['guards']))
+    L.append('].')
+    L.append('(* every site that addresses the frame table with a key: the role of each element *)')
+    L.append('Definition gen_key_sites : list (string * list krole) := [')
+    L.append(';\n'.join(f'  ({_cs(n)}, [{"; ".join(rs)}])' for n, rs in info['keys']))
     L.append('].')
     L.append('(* census: (function, kind of use of <frame>._data) *)')
     L.append('Definition gen_data_census : list (string * string) := [')
